@@ -172,7 +172,8 @@ Stmt(x, s) ==
                      ELSE IF c.v.v THEN Run(x.then, c.st) ELSE Elifs(x.elifs, x, c.st)
     [] x.k = "for" -> LET i == Assign(x.init, s) IN
                       IF i.flag = "err" THEN i ELSE Loop(x, i.st, 0)
-    [] x.k = "range" -> Range(x, [j \in 1..Len(s.host.arr) |-> j - 1], s, 0)
+    \* arr: the injected slice; za, oz.Z: injected fixed-size arrays of three elements (whatever they hold)
+    [] x.k = "range" -> Range(x, IF x.coll = "arr" THEN [j \in 1..Len(s.host.arr) |-> j - 1] ELSE <<0, 1, 2>>, s, 0)
     [] x.k = "rangem" -> Range(x, SeqOf(DOMAIN s.host.m), s, 0)       \* a snapshot of the keys at loop entry
     [] x.k = "brk" -> R("brk", I(0), FALSE, s, x.line)
     [] x.k = "cont" -> R("cont", I(0), FALSE, s, x.line)
